@@ -84,7 +84,7 @@ class PGateway:
                 t.cancel()
         return bool(fed)
 
-    def stop_during_tick(self, line):
+    def stop_during_tick(self, line, pause="fsync"):
         """Threaded flavour: a periodic save is in flight in the timer thread (it has serialised the state and waits in
         fsync) when one more state-changing line arrives and the user calls stop(); the timer thread finishes afterwards.
         Returns True if the overlap really happened."""
@@ -120,6 +120,40 @@ class PGateway:
                 self.tick_errors.append(exc)
 
         mp.os = OsProxy()
+        had_open = "open" in mp.__dict__
+        real_open = mp.__dict__.get("open", open)
+        if pause == "mid-write":
+            # pause the timer thread between two write() calls of the temp file instead (json writes in many chunks)
+            class FileProxy:
+                def __init__(self, fh):
+                    self._fh = fh
+                    self._n = 0
+
+                def write(self, data):
+                    r = self._fh.write(data)
+                    self._n += 1
+                    if self._n == 3 and tick_ident and threading.get_ident() == tick_ident[0] and not release.is_set():
+                        self._fh.flush()
+                        in_fsync.set()
+                        release.wait(20)
+                    return r
+
+                def __getattr__(self, name):
+                    return getattr(self._fh, name)
+
+                def __enter__(self):
+                    return self
+
+                def __exit__(self, *a):
+                    return self._fh.__exit__(*a)
+
+            def proxy_open(*a, **k):
+                fh = real_open(*a, **k)
+                if tick_ident and threading.get_ident() == tick_ident[0] and len(a) > 1 and "w" in a[1]:
+                    return FileProxy(fh)
+                return fh
+
+            mp.open = proxy_open
         th = threading.Thread(target=body, name="vf-tick", daemon=True)
         try:
             th.start()
@@ -130,12 +164,20 @@ class PGateway:
             try:
                 if line is not None:
                     self.eng.feed(line)
+                # the timer thread goes on 50 ms after stop() was called: a stop() that waits for the save in flight
+                # returns then, one that does not wait has long returned
+                threading.Timer(0.05, release.set).start()
                 self.stop()
             finally:
                 release.set()
                 th.join(20)
         finally:
             mp.os = real_os
+            if pause == "mid-write":
+                if had_open:
+                    mp.open = real_open
+                else:
+                    del mp.open
             for t in FAKE_THREADING.live():
                 t.cancel()
         return overlapped
@@ -203,7 +245,7 @@ def run_persist_history(cfg, steps, path):
                 known = set(pg.gw.sensors)
                 try:
                     if k == "stop-during-tick":
-                        if pg.stop_during_tick(late):
+                        if pg.stop_during_tick(late, st[2] if len(st) > 2 else "fsync"):
                             out["stops_during_a_tick"] = out.get("stops_during_a_tick", 0) + 1
                     elif pg.stop(late):
                         out["late_lines_delivered"] = out.get("late_lines_delivered", 0) + 1
